@@ -21,7 +21,6 @@ package store
 import (
 	"context"
 	"database/sql"
-	"fmt"
 	"path"
 	"time"
 
@@ -79,7 +78,12 @@ func (s *MySQLReplicateStore) Get(ctx context.Context, key string, withPrefix bo
 	var sqlStr string
 	var sqlArgs []any
 	if withPrefix {
-		sqlStr = fmt.Sprintf("SELECT task_msg_value FROM task_msg WHERE task_msg_key LIKE '%s%%'", taskMsgKey)
+		// path.Join drops a trailing separator: keep the tenant's root a whole path element
+		if root := path.Join(s.rootPath); key == "" && root != "" {
+			taskMsgKey = root + "/"
+		}
+		sqlStr = "SELECT task_msg_value FROM task_msg WHERE task_msg_key LIKE ?"
+		sqlArgs = append(sqlArgs, likePrefixPattern(taskMsgKey))
 	} else {
 		sqlStr = "SELECT task_msg_value FROM task_msg WHERE task_msg_key = ?"
 		sqlArgs = append(sqlArgs, taskMsgKey)
